@@ -50,6 +50,13 @@ def attach_replays(rep, seed=0):
         ob.detail += " | native replay: %s" % json.dumps(res, default=str)[:600]
 
 
+def _rm(path):
+    try:
+        os.remove(path)
+    except OSError:
+        pass
+
+
 def search_witnesses(rep, seed=0):
     """Undecided obligations (solver gave up, harness left the executor's subset or ran out of budget) are not
     violations.  But the same harness runs natively against the real code: a random search over its inputs that finds
@@ -65,10 +72,10 @@ def search_witnesses(rep, seed=0):
         if key in done:
             continue
         done.add(key)
-        payload = dict(kind="pyvc-harness", contract=ob.contract_mod, harness=ob.harness, obligation_name=oname, inputs={},
-                       seed=seed, obligation_text=ob.text, solver_backend=ob.backend, solver_output=ob.detail,
+        payload = dict(kind="pyvc-harness", contract=ob.contract_mod, harness=ob.harness, obligation_name=oname,
+                       inputs=(ob.model or {}) if not anyo else {}, seed=seed, obligation_text=ob.text, solver_backend=ob.backend, solver_output=ob.detail,
                        how_to_run="cd /verif && ./check %s --replay <this file>" % rep.pid)
-        path = write_replay(rep.pid, ob.oid + "@search", payload)
+        path = write_replay(rep.pid, ob.oid + "@search%d" % os.getpid(), payload)
         rc, res = native(path, search=WITNESS_SEARCH)
         if not (rc == 1 and res.get("status") == "fails"):
             try:
@@ -80,7 +87,7 @@ def search_witnesses(rep, seed=0):
         found = res.get("obligation") or oname
         payload.update(confirmed=True, native_result=res, inputs=res.get("inputs", {}), seed=res.get("seed", seed),
                        obligation_name=found, found_by=res.get("how"))
-        os.remove(path)
+        _rm(path)
         oid = "%s/%s" % (ob.harness, found)
         path = write_replay(rep.pid, oid, payload)
         detail = "no verdict from the solver (%s); failing input found by native search: %s" % (
@@ -111,11 +118,11 @@ def run_bounded(rep, contract_mod, hname, meta, seed=0):
                    obligation_text="every obligation of the harness on random inputs", solver_backend="native-sampling",
                    how_to_run="cd /verif && ./check %s --replay <this file>" % rep.pid)
     oid0 = "%s/sampled" % hname
-    path = write_replay(rep.pid, oid0 + "@run", payload)
+    path = write_replay(rep.pid, oid0 + "@run%d" % os.getpid(), payload)
     t0 = time.time()
     rc, res = native(path, search=n, timeout=1800)
     dt = time.time() - t0
-    os.remove(path)
+    _rm(path)
     if rc == 1 and res.get("status") == "fails":
         found = res.get("obligation") or "sampled"
         oid = "%s/%s" % (hname, found)
